@@ -134,6 +134,14 @@ def run(ctx):
                 refs += 1
                 R.instance("CALL", "%s uses parse_ecu_id" % p)
     R.floor("CALL", 3)
+    # ID-FLOW: what the three header parsers store as ids is the extraction's result for the 4 bytes at the layout's
+    # offset, present exactly when the layout has the field (a filter / default / fallback between the extraction and the
+    # header record would let a message report an id that is not the field's clean prefix)
+    from rules import lib_wirep
+    lib_wirep.check_standard(ctx, "ID-FLOW", only={"ecu_id"})
+    lib_wirep.check_extended(ctx, "ID-FLOW", only={"application_id", "context_id"})
+    lib_wirep.check_storage(ctx, "ID-FLOW", only={"ecu_id"})
+    R.floor("ID-FLOW", 3)
 
 
 def passthrough(ctx, p):
